@@ -506,6 +506,13 @@ class Channel:
                 w.rf_write_blocks(arr, [nxt, nxt + 8], [0, 6])
             elif kind == "length-mismatch":
                 w.rf_write_blocks(arr, [nxt, nxt + 8], [0, 2, 4])
+            elif kind == "late-defect-in-many-blocks":
+                # more than a thousand one-sample blocks, the defect (an index that goes back) near the end of the list
+                nb = 1100
+                gl = np.arange(nxt, nxt + 2 * nb, 2, dtype=np.uint64)
+                gl[1060] = gl[1059]
+                off = np.arange(nb, dtype=np.uint64)
+                w.rf_write_blocks(self._data([[st + nxt, nb]]), gl, off)
             elif kind == "negative-index":
                 self.nneg = getattr(self, "nneg", 0) + 1
                 neg = [-5, -25, -1][self.nneg % 3]
@@ -874,6 +881,10 @@ class CChannel(Channel):
         elif kind == "length-mismatch":
             # the C API takes one length for both arrays; the nearest malformed call is a zero index length
             rc = self._cmd("b %d 0" % (L + 2))
+        elif kind == "late-defect-in-many-blocks":
+            if nxt == 0:
+                return None
+            rc = self._cmd("w 0 2")       # (the C driver's line protocol has no room for a thousand blocks: a past write instead)
         elif kind == "negative-index":
             # the C API takes unsigned indices: the nearest call is one far in the past
             if nxt == 0:
